@@ -160,7 +160,9 @@ func c04(c *Ctx) {
 			return r == elemRoot && strings.HasSuffix(p, field) && strings.TrimSuffix(p, field) == elemPath
 		}
 		c.R.Check(ok && strings.HasSuffix(np, "FunctionRef.Name") && (elemPath == "" || strings.HasSuffix(elemPath, "Pipeline[].")), site(run)+" name", c.pos(run.Pos()), "the function name is fn.FunctionRef.Name", "the function run is not named by the step's functionRef ("+np+")")
-		um := cfgx.Calls(fc, func(ci ssa.CallInstruction) bool { return strings.HasSuffix(cfgx.CalleeName(ci), "structpb.Struct).UnmarshalJSON") })
+		um := cfgx.Calls(fc, func(ci ssa.CallInstruction) bool {
+			return strings.HasSuffix(cfgx.CalleeName(ci), "structpb.Struct).UnmarshalJSON")
+		})
 		if len(um) == 1 {
 			r, p, _ := flow.AccessPathC(cfgx.CallArgs(um[0])[0])
 			c.R.Check(sameElem(r, p, "Input.Raw"), site(um[0])+" input", c.pos(um[0].Pos()), "the input is fn.Input.Raw of the same step", "the input is not the same step's fn.Input.Raw")
@@ -775,7 +777,7 @@ func c04proto(c *Ctx) {
 		}
 		if okA {
 			ta, tb := protoTags(sa), protoTags(sb)
-			c.R.Check(reflect.DeepEqual(ta, tb) , "proto message "+n, c.pos(oa.Pos()), itoa(len(ta))+" fields with identical tags in both versions", "protobuf field tags differ between v1 and v1beta1: "+diffTags(ta, tb))
+			c.R.Check(reflect.DeepEqual(ta, tb), "proto message "+n, c.pos(oa.Pos()), itoa(len(ta))+" fields with identical tags in both versions", "protobuf field tags differ between v1 and v1beta1: "+diffTags(ta, tb))
 			continue
 		}
 		// enum: compare constants
